@@ -225,6 +225,8 @@ func main() {
 		os.Exit(selftest(o))
 	case "c02canon":
 		c02Canon()
+	case "c03exp":
+		c03Exp()
 	default:
 		fatal("unknown mode %s", os.Args[1])
 	}
